@@ -2,6 +2,8 @@ package main
 
 import (
 	"fmt"
+	"go/types"
+	"sort"
 	"strings"
 
 	"golang.org/x/tools/go/ssa"
@@ -72,93 +74,8 @@ func runC03(c *Ctx) {
 		rule := "R1-reverse"
 		fn := v.Fn
 		e := NewE1(c, fn)
-		last := "(recv.Base.NumINF - 1)"
-		multi := e.AtomGuard("more than one segment", "+lt(1, recv.Base.NumINF)")
 		nonEmpty := e.AtomGuard("non-empty path", "-eq(recv.Base.NumINF, 0)")
-		type sw struct{ a, b string }
-		want := map[string]string{
-			"recv.InfoFields[0]":               "recv.InfoFields[" + last + "]",
-			"recv.InfoFields[" + last + "]":    "recv.InfoFields[0]",
-			"recv.Base.PathMeta.SegLen[0]":             "recv.Base.PathMeta.SegLen[" + last + "]",
-			"recv.Base.PathMeta.SegLen[" + last + "]": "recv.Base.PathMeta.SegLen[0]",
-		}
-		got := map[string]bool{}
-		var segStores []ssa.Instruction
-		var other []string
-		for _, st := range v.Stores("recv.*") {
-			switch {
-			case want[st.Addr] != "":
-				if st.Val == want[st.Addr] {
-					got[st.Addr] = true
-					segStores = append(segStores, st.In)
-				} else {
-					c.Fail(rule, v.Name()+":store:"+st.Addr, st.In.Pos(), "stores "+st.Val+"; required "+want[st.Addr])
-				}
-			case strings.HasSuffix(st.Addr, ".ConsDir"), strings.HasPrefix(st.Addr, "recv.HopFields["),
-				st.Addr == "recv.Base.PathMeta.CurrINF", st.Addr == "recv.Base.PathMeta.CurrHF":
-			default:
-				other = append(other, st.Addr)
-			}
-		}
-		c.Check(len(got) == 4 && len(other) == 0, rule, v.Name()+":segment-swap", fn.Pos(), fmt.Sprintf(
-			"first and last info field and segment length are exchanged (%d of 4 stores); other stores into the path: %v", len(got), other))
-		if len(segStores) > 0 {
-			e.Require(rule, "segment-swap-guard", nil, segStores, nonEmpty, multi)
-		}
-		// ConsDir negation over all i < NumINF
-		okNeg := false
-		var negStores []ssa.Instruction
-		for _, st := range v.Stores("recv.InfoFields[*].ConsDir") {
-			if st.Val == "!"+st.Addr {
-				okNeg = true
-				negStores = append(negStores, st.In)
-				// the index: phi starting at 0, stepping +1, bounded by NumINF
-				ix := indexOf(st.In.Addr)
-				okNeg = okNeg && loopIndex(ix, 0, 1)
-			}
-		}
-		c.Check(okNeg && len(negStores) == 1, rule, v.Name()+":consdir-negated", fn.Pos(), "ConsDir = !ConsDir for i = 0, 1, ... ")
-		e.Require(rule, "consdir-range", nil, e.SuccessReturns(), e.AtomGuard("all info fields visited", "-lt(*, recv.Base.NumINF)"))
-		// the loop covers every i < NumINF: entered iff 0 < NumINF and left only at i+1 >= NumINF
-		okBounds := true
-		for _, in := range negStores {
-			b := in.Block()
-			n := 0
-			for i := range b.Succs {
-				lits, _ := edgeLits(b, i, nil)
-				for _, l := range lits {
-					if l.Kind == "lt" && strings.HasSuffix(l.String(v.S), ", recv.Base.NumINF)") {
-						n++
-					}
-				}
-			}
-			okBounds = okBounds && n == 2
-		}
-		c.Check(okBounds, rule, v.Name()+":consdir-loop-bound", fn.Pos(), "the negation loop continues exactly while i+1 < NumINF")
-		// hop field swap
-		var hs []StoreInfo
-		for _, st := range v.Stores("recv.HopFields[*]") {
-			hs = append(hs, st)
-		}
-		okHop := len(hs) == 2
-		if okHop {
-			i0, i1 := indexOf(hs[0].In.Addr), indexOf(hs[1].In.Addr)
-			okHop = hs[0].Val == hs[1].Addr && hs[1].Val == hs[0].Addr && i0 != nil && i1 != nil && i0 != i1
-			up, down := i0, i1
-			if !loopIndex(up, 0, 1) {
-				up, down = i1, i0
-			}
-			okHop = okHop && loopIndex(up, 0, 1) && loopIndexFrom(down, "(recv.Base.NumHops - 1)", -1, v.S)
-			if okHop {
-				g := Guard{Name: "i < j", Match: func(l Lit) bool { return l.Kind == "lt" && l.Pos && l.X == up && l.Y == down }}
-				e.Require(rule, "hop-swap-while-i<j", nil, []ssa.Instruction{hs[0].In, hs[1].In}, g)
-				e.Require(rule, "hop-swap-complete", nil, e.SuccessReturns(),
-					Guard{Name: "!(i < j)", Match: func(l Lit) bool { return l.Kind == "lt" && !l.Pos && l.X == up && l.Y == down }})
-			}
-		}
-		c.Check(okHop, rule, v.Name()+":hop-swap", fn.Pos(), "HopFields[i] and HopFields[j] are exchanged, i from 0 upwards, j from NumHops-1 downwards")
-		v.RequireStore(rule, 1, "recv.Base.PathMeta.CurrINF", "((uint8(recv.Base.NumINF) - recv.Base.PathMeta.CurrINF) - 1)")
-		v.RequireStore(rule, 1, "recv.Base.PathMeta.CurrHF", "((uint8(recv.Base.NumHops) - recv.Base.PathMeta.CurrHF) - 1)")
+		c03ReverseTable(c, v, rule)
 		okRet := true
 		for _, r := range e.SuccessReturns() {
 			okRet = okRet && strings.Contains(v.S.Sym(RetVal(r.(*ssa.Return), 0)), "recv")
@@ -193,6 +110,9 @@ func runC03(c *Ctx) {
 		}
 		okHops := len(hopLit) == 2
 		for k, src := range map[int]string{0: "recv.FirstHop.", 1: "recv.SecondHop."} {
+			if hopLit[k][""] == strings.TrimSuffix(src, ".") {
+				continue // the hop field is copied as a whole
+			}
 			for _, f := range []string{"IngressRouterAlert", "EgressRouterAlert", "ConsIngress", "ConsEgress", "ExpTime", "Mac"} {
 				if hopLit[k][f] != src+f {
 					okHops = false
@@ -238,7 +158,7 @@ func runC03(c *Ctx) {
 				}
 			}
 			// the reversed object is the decoded path (or the SCION path inside an EPIC path)
-			recvSym := v.S.Sym(rev.Common().Value)
+			recvSym := expandSym(v.S, rev.Common().Value, 2)
 			ok = ok && strings.Contains(recvSym, "pkg/slayers/path.NewPath(arg0.PathType)#0") && strings.Contains(recvSym, "ScionPath")
 		}
 		c.Check(ok, rule, v.Name()+":returns-reversed", v.Fn.Pos(), "RawReplyPath.Path = (decoded path, or EPIC's ScionPath).Reverse()")
@@ -301,4 +221,129 @@ func loopIndexFrom(v ssa.Value, start string, step int64, s *Symer) bool {
 		}
 	}
 	return init && adv
+}
+
+
+// c03ReverseTable decides WHAT Decoded.Reverse leaves in the path, by abstract
+// evaluation over the symbolic store (E3, DynMemory): for every number of
+// segments 0..3 and of hops 0..5 the loops are unrolled by constant
+// propagation and the final content of every written location is compared with
+// the reversal: info field k = initial info field n-1-k with ConsDir negated,
+// SegLen[k] = initial SegLen[n-1-k], hop field k = initial hop field h-1-k,
+// CurrINF = n-1-CurrINF, CurrHF = h-1-CurrHF, nothing else written. How the
+// function is written (swap loops, helper methods, index arithmetic) does not
+// matter.
+func c03ReverseTable(c *Ctx, v *FnView, rule string) {
+	infoFields := structFieldNames(c, "pkg/slayers/path.InfoField")
+	hopFields := structFieldNames(c, "pkg/slayers/path.HopField")
+	c.Check(len(infoFields) >= 4 && len(hopFields) >= 5, rule, v.Name()+":field-lists", v.Fn.Pos(),
+		fmt.Sprintf("InfoField has %d members, HopField %d", len(infoFields), len(hopFields)))
+	atoi := func(s string) int { var x int; fmt.Sscan(s, &x); return x }
+	RunTable(c, &TableSpec{
+		Rule: rule, Fn: v.Fn, Depth: 3, DynMemory: true,
+		NoInline: []string{"pkg/private/serrors.*"},
+		Atoms: []Atom{
+			{Name: "n", Pats: []string{"recv.Base.NumINF"}, Domain: []string{"0", "1", "2", "3"}},
+			{Name: "h", Pats: []string{"recv.Base.NumHops"}, Domain: []string{"0", "1", "2", "3", "4", "5"}},
+			{Name: "ci", Pats: []string{"recv.Base.PathMeta.CurrINF"}, Domain: []string{"0", "1", "2"}},
+			{Name: "ch", Pats: []string{"recv.Base.PathMeta.CurrHF"}, Domain: []string{"0", "1", "4"}},
+		},
+		Oracle: func(a map[string]string) map[string]string {
+			if a["n"] == "0" {
+				return map[string]string{"ret1": "sym:*"}
+			}
+			return map[string]string{"ret1": "nil", "ret0": "sym:*recv*"}
+		},
+		CheckMem: func(a map[string]string, mem map[string]string) string {
+			n, h, ci, ch := atoi(a["n"]), atoi(a["h"]), atoi(a["ci"]), atoi(a["ch"])
+			if n == 0 {
+				if len(mem) > 0 {
+					return fmt.Sprintf("an empty path is rejected but %d location(s) were written", len(mem))
+				}
+				return ""
+			}
+			// effective content of a location: its own last store, else the matching part
+			// of the closest enclosing location that was stored as a whole, else itself
+			eff := func(loc string) string {
+				if val, ok := mem[loc]; ok {
+					return strings.TrimPrefix(val, "sym:")
+				}
+				for i := len(loc) - 1; i > 0; i-- {
+					if loc[i] == '.' || loc[i] == '[' {
+						if val, ok := mem[loc[:i]]; ok && strings.HasPrefix(val, "sym:") {
+							return strings.TrimPrefix(val, "sym:") + loc[i:]
+						}
+					}
+				}
+				return loc
+			}
+			expect := map[string]string{}
+			for k := 0; k < n; k++ {
+				for _, f := range infoFields {
+					src := fmt.Sprintf("recv.InfoFields[%d].%s", n-1-k, f)
+					if f == "ConsDir" {
+						src = "!" + src
+					}
+					expect[fmt.Sprintf("recv.InfoFields[%d].%s", k, f)] = src
+				}
+				expect[fmt.Sprintf("recv.Base.PathMeta.SegLen[%d]", k)] = fmt.Sprintf("recv.Base.PathMeta.SegLen[%d]", n-1-k)
+			}
+			for k := 0; k < h; k++ {
+				for _, f := range hopFields {
+					expect[fmt.Sprintf("recv.HopFields[%d].%s", k, f)] = fmt.Sprintf("recv.HopFields[%d].%s", h-1-k, f)
+				}
+			}
+			expect["recv.Base.PathMeta.CurrINF"] = fmt.Sprint(int(uint8(n) - uint8(ci) - 1))
+			expect["recv.Base.PathMeta.CurrHF"] = fmt.Sprint(int(uint8(h) - uint8(ch) - 1))
+			var locs []string
+			for loc := range expect {
+				locs = append(locs, loc)
+			}
+			sort.Strings(locs)
+			for _, loc := range locs {
+				if got := eff(loc); got != expect[loc] {
+					return fmt.Sprintf("after Reverse %s holds %s, required %s", loc, got, expect[loc])
+				}
+			}
+			// nothing else is written
+			for loc := range mem {
+				covered := false
+				for e := range expect {
+					if e == loc || strings.HasPrefix(e, loc+".") || strings.HasPrefix(e, loc+"[") || strings.HasPrefix(loc, e+"[") {
+						covered = true
+						break
+					}
+				}
+				if !covered {
+					return "writes " + loc + ", which is not part of the reversal"
+				}
+			}
+			return ""
+		},
+	})
+}
+
+// structFieldNames lists the members of a named struct type of the module.
+func structFieldNames(c *Ctx, q string) []string {
+	pkgRel, name, ok := splitQual(q)
+	if !ok {
+		return nil
+	}
+	p := c.Prog.Pkgs[modPath+"/"+pkgRel]
+	if p == nil || p.Types == nil {
+		return nil
+	}
+	obj := p.Types.Scope().Lookup(name)
+	if obj == nil {
+		return nil
+	}
+	st, ok := obj.Type().Underlying().(*types.Struct)
+	if !ok {
+		return nil
+	}
+	var out []string
+	for i := 0; i < st.NumFields(); i++ {
+		out = append(out, canonFieldName(obj.Type(), st.Field(i).Name()))
+	}
+	return out
 }
